@@ -128,6 +128,9 @@ pub trait DecisionNNFBuilder<'a>: TopDownBuilder<'a, BddPtr<'a>> {
         };
 
         let mut r = self.topdown_h(cnf, &mut sat, 0, &mut FxHashMap::default());
+        if r.is_false() {
+            return BddPtr::false_ptr();
+        }
 
         // conjoin in any initially implied literals
         for l in sat.difference_iter() {
